@@ -539,9 +539,16 @@ def run(chk, facts, tier, only=None):
         chk.floor("functions of the declaration pass", len(scope), 4)
         RESOLVE = re.compile(r"type_env::TypeEnv::(\w+)$")
         EXISTS_ONLY = {"find_type"}
-        def not_pre(e):
+        def is_pre(e, t):
+            """`env.pre`, or a local that was bound to it"""
             e = unblock(e)
-            return isinstance(e, dict) and e.get("k") == "un" and e.get("op") == "Not" and (expr_path(e["a"]) or "").endswith(".pre")
+            p_ = expr_path(e) or ""
+            if p_.endswith(".pre"):
+                return True
+            return any((expr_path(unblock(l["init"])) or "").endswith(".pre") for l in t.lets().get(p_, []))
+        def not_pre(e, t):
+            e = unblock(e)
+            return isinstance(e, dict) and e.get("k") == "un" and e.get("op") == "Not" and is_pre(e["a"], t)
         def conj(e):
             e = unblock(e)
             if isinstance(e, dict) and e.get("k") == "bin" and e.get("op") == "And":
@@ -550,10 +557,12 @@ def run(chk, facts, tier, only=None):
         def guarded(t, n):
             cur = n
             for p in t.ancestors(n):
-                if p.get("k") == "bin" and p.get("op") == "And" and any(x is cur for x in walk(p["b"])) and any(not_pre(x) for x in conj(p["a"])):
+                if p.get("k") == "bin" and p.get("op") == "And" and any(x is cur for x in walk(p["b"])) and any(not_pre(x, t) for x in conj(p["a"])):
                     return True
-                if p.get("k") == "if" and any(x is cur for x in walk(p["t"])) and any(not_pre(x) for x in conj(p["c"])):
+                if p.get("k") == "if" and any(x is cur for x in walk(p["t"])) and any(not_pre(x, t) for x in conj(p["c"])):
                     return True
+                if p.get("k") == "if" and p.get("e") is not None and any(x is cur for x in walk(p["e"])) and is_pre(p["c"], t):
+                    return True         # `if env.pre { .. } else { <here> }`
                 cur = p
             return False
         n_sites = 0
